@@ -24,6 +24,27 @@ CHECKS = {
  "C10": ("exploration", "trace monitor: retracted set replayed from the fired rules' own action lists",
          "Control profile (self/other/multiple/unknown Retract, Complete at every position); retracted rules are never evaluated or fired again in the call, all others still are; after Complete the remaining statements run, nothing further happens, nil is returned.",
          "Trusted: reference interpreter; Function_en reading of Retract (stays out until next Execute).", "DESIGN §5 C10"),
+ "C05": ("exploration", "differential: engine vs reference interpreter, 4 spellings per expression, documented literal tables vs math/big",
+         "Typed random expression trees over all operators x operand kinds, built-ins and fixed/variadic fact methods; the engine's value (stored into a nil interface field so the dynamic kind is visible; candidate flag for booleans) must equal the reference value under the PUBLISHED precedence table in every spelling; literal tables of the docs replayed verbatim. Known findings K1/K2/K6 are matched by narrow signatures (regroup counterfactual, exact literal, exact lexer cell).",
+         "Trusted: reference interpreter; math/big for literal values; overflow/div0/NaN-free states only.", "DESIGN §5 C05"),
+ "C08": ("exploration", "history monitor: per-call trace monitors re-armed under fresh-instance assumptions",
+         "Histories of 2-6 Execute / ExecuteWithContext / FetchMatchingRules calls on one instance with different facts and endings (normal, Complete, action error, cycle limit, cancellation at a chosen event); each call must satisfy the C01/C02/C03/C06/C10 monitors and fetch exactness as if the instance were new.",
+         "Trusted: reference interpreter; permitted-behaviour reading of 'as if just created'.", "DESIGN §5 C08"),
+ "C11": ("exploration", "set/order comparison with the reference matching set, deep fact comparison before/after",
+         "FetchMatchingRules on generated rule sets incl. removed rules, equal saliences, erroring conditions, fresh and previously executed instances, both flag settings, 8 repetitions each (map order).",
+         "Trusted: reference interpreter.", "DESIGN §5 C11"),
+ "C13": ("exploration", "call-count monitor: logged calls per call text vs 1 + invalidation events from the validated trace",
+         "Counted pure methods carrying an id per call text are injected into 1..12 rules; calls per id must not exceed 1 + the invalidation events (executed assignments overlapping a variable of the call, Forget/Changed naming it) of the validated trace. Generous overlap: can miss an unnecessary re-evaluation between sibling elements, never accuses correct code.",
+         "Trusted: trace validity (C01/C06 monitors are run first; unvalidated traces are inconclusive).", "DESIGN §5 C13"),
+ "C14": ("fault_enumeration", "fault enumeration at the harness-method boundary + hostile fact states predicted by the reference",
+         "The k-th harness-method call of a run fails (panic / poisoned value fitting its site) for every k up to 60 (quick) / 200 (thorough) per program, both flag settings; conditions (incl. a call text shared by two rules) and 1st/2nd/3rd action statements; static faults (nil pointers, short slices, missing keys/members/facts, kind mismatches, zero divisors). Checks: no panic escapes, failing rule not a candidate, other rules' flags equal the reference, error naming the rule when required, effects of completed statements kept, no further firing.",
+         "Trusted: reference interpreter; a poisoned return value is a successful call and is legitimately remembered (rules sharing that call text are not judged after it).", "DESIGN §5 C14"),
+ "C15": ("fault_enumeration", "enumerated synchronous cancellation points + asynchronous cancellation under the race detector",
+         "cancel() is invoked at every boundary event of the run (BeginCycle, each evaluation, ExecuteRuleEntry, harness-method calls inside conditions and actions), plus pre-cancelled / expired contexts and asynchronous cancellation from a second goroutine (verdict from stamp order). No action effect of a firing started after the instant; facts equal a prefix of the running rule's list; context error returned when a firing was still due.",
+         "Trusted: reference interpreter; programs without Complete().", "DESIGN §5 C15"),
+ "C19": ("exploration", "exhaustive consistency + exact-order oracle over a finite boundary domain, plus GRL sample",
+         "All six operators, mirrored calls and the exact mathematical order (math/big) for every ordered pair over 12 numeric kinds x 3 wrappings x 32 boundary values, strings, booleans, times (locations, monotonic reading); exhaustive over that finite domain (evidence: exhaustive=true for the direct part). A seeded sample goes through GRL conditions over typed fields.",
+         "Trusted: math/big; domain bounded to the int64 range, NaN excluded.", "DESIGN §5 C19"),
 }
 
 NOT_YET = {}
